@@ -9,7 +9,9 @@ from tscen import *
 def scenarios(quick):
     out = []
     stacks = [lambda m, w: [bh("b", m, wait=w)], lambda m, w: [retry(1, dly=1), bh("b", m, wait=w)], lambda m, w: [to(3), bh("b", m, wait=w)],
-              lambda m, w: [bh("b", m, wait=w), to(3)], lambda m, w: [fb(), bh("b", m, wait=w)], lambda m, w: [hg(1, 2), bh("b", m, wait=w)]]
+              lambda m, w: [bh("b", m, wait=w), to(3)], lambda m, w: [fb(), bh("b", m, wait=w)], lambda m, w: [hg(1, 2), bh("b", m, wait=w)],
+              # a policy between the bulkhead and the function that reports a cancellation (outer timeout / async Cancel): the permit still comes back
+              lambda m, w: [to(3), bh("b", m, wait=w), retry(1, dly=1)], lambda m, w: [bh("b", m, wait=w), retry(1, dly=1)], lambda m, w: [bh("b", m, wait=w), hg(1, 2)]]
     for mk in stacks:
         for m in (1, 2):
             for w in (0, 3):
@@ -22,6 +24,9 @@ def scenarios(quick):
                             out.append(scenario(st, fns, base))
                             for ct in ((1, 3) if quick else (0, 1, 2, 3, 4)):
                                 out.append(scenario(st, fns, base + [env("CtxCancel", ct, 2)]))
+                            for ct in ((2,) if quick else (1, 2, 3)):
+                                if len(st) == 2 and st[0]["k"] == "bh" or len(st) == 3:
+                                    out.append(scenario(st, fns, base + [env("AsyncCancel", starts[2] + ct, 3)]))
                             out.append(scenario(st, fns, [env("BhTake", 0, id="b")] + base + [env("BhRelease", 2, id="b")]))
                             # a standalone AcquirePermit(ctx) waiting behind the executions, cancelled or served
                             out.append(scenario(st, fns, base + [env("BhAcquire", 1, x=7, id="b"), env("BhAcqCancel", 2, x=7), env("BhRelease", 9, id="b")] if False else
@@ -56,6 +61,12 @@ def run(ctx):
     if ctx.tier == "quick":      # several concurrent executions make validation expensive: every 6th scenario, offset by the seed
         scs = scs[ctx.seed % 6::6] + scs[-6:]
     p_c07.run_family(ctx, "bh", scs, props=("C06",))
+    # permits taken through the standalone API before the run, successive executions, every nesting of depth <= 2 around the bulkhead
+    import seq
+    binary = vlib.build_harness(ctx)
+    st = [s for s in seq.all_stacks(["bh2p", "bh1", "rp1", "fbR", "to", "cbA"], 2 if ctx.tier == "quick" else 3) if any(x.startswith("bh") for x in s)]
+    mm = seq.run_family(ctx, binary, "bhseq", st, outs=seq.OUTS3, maxcalls=3, execs=2)
+    seq.report(ctx, mm, lambda m: m["tag"] in ("calls", "ret", "probe") or m.get("kind") == "bh")
     return vlib.finish(ctx, rule="6 placements of a bulkhead (alone, under retry, under/over timeout, under fallback, under hedge) x maxConcurrency 1-2 x max wait 0/3 x 3 executions (sync and async) with "
                        "staggered starts and durations x outcome x context cancellation of a waiting or running execution at several instants x standalone TryAcquirePermit/ReleasePermit; traces validated by TLC, "
                        "in-flight bound on every prefix, permits probed at quiescence")
